@@ -97,21 +97,33 @@ Definition get_mac_addr_by_ipv6 (ver v : Z) : lres eui :=
 
 (* ------------------------------------------------------------------ parse_host_port / escape_ipv6 *)
 
-(* None and '' are both falsy: the model takes '' for None *)
+(* s.split(c, 1) when c occurs: the text before and after the first c *)
+Fixpoint cut_at (c : N) (s : str) : option (str * str) :=
+  match s with
+  | [] => None
+  | x :: t => if (x =? c)%N then Some ([], t)
+              else match cut_at c t with Some (a, b) => Some (x :: a, b) | None => None end
+  end.
+(* s.rsplit(c, 1) when c occurs: the text before and after the LAST c *)
+Definition rcut_at (c : N) (s : str) : option (str * str) :=
+  match cut_at c (rev s) with Some (a, b) => Some (rev b, rev a) | None => None end.
+
+(* None and '' are both falsy: the model takes '' for None.
+   A bracketed host is split at the last ']' (fix 03fda28). *)
 Definition parse_host_port (address : str) (default_port : pyval) : res (option str * option Z) :=
   match address with
   | [] => Ok (None, None)
   | c :: rest =>
     if (c =? 91)%N then
-      match split_char 93%N rest with
-      | [h; p] =>
+      match rcut_at 93%N rest with
+      | Some (h, p) =>
         if has_char 58%N p then
           match split_char 58%N p with
           | _ :: q :: _ => do pn <- opt_int (VStr q); Ok (Some h, pn)
           | _ => Exn IndexError
           end
         else do pn <- opt_int default_port; Ok (Some h, pn)
-      | _ => Exn ValueError
+      | None => Exn ValueError
       end
     else if count_char 58%N address =? 1 then
       match split_char 58%N address with
@@ -126,14 +138,6 @@ Definition escape_ipv6 (valid : bool) (address : str) : str :=
   if valid then [91%N] ++ address ++ [93%N] else address.
 
 (* ------------------------------------------------------------------ urlsplit *)
-
-(* s.split(c, 1) when c occurs: the text before and after the first c *)
-Fixpoint cut_at (c : N) (s : str) : option (str * str) :=
-  match s with
-  | [] => None
-  | x :: t => if (x =? c)%N then Some ([], t)
-              else match cut_at c t with Some (a, b) => Some (x :: a, b) | None => None end
-  end.
 
 (* what oslo's urlsplit does with the five components parse.urlsplit returned *)
 Definition urlsplit_post (scheme netloc path query fragment : str) (allow_fragments : bool)
